@@ -91,7 +91,7 @@ PROPS = {
     ),
     "C05": dict(
         level="other",
-        contracts=["contracts.sections"],
+        contracts=["contracts.sections", "contracts.lines"],
         harness=True,
         explanation=(
             "PROVED for every state of the open-level map and every level >= 1 (hence, by induction over the heading "
@@ -269,20 +269,33 @@ PROPS = {
         technique="bounded run-time stand-in (generated HTML snippets, directive-spelling equivalence) - no contract discharged for html_to_nodes yet",
     ),
     "C04": dict(
-        level="exploration",
-        contracts=[],
+        level="other",
+        contracts=["contracts.lines"],
+        flow=["checks.flow_lines:run"],
         harness=True,
         explanation=(
-            "BOUNDED ONLY so far (the line-arithmetic chain token_line -> _render_tokens -> nested_render_text -> "
-            "MockState.nested_parse is not yet under contract): generated documents whose generator knows the first line of "
+            "PROVED (pyvc, all token lists / offsets, relative to the assumed contract of markdown-it's parse: fresh, pairwise "
+            "distinct tokens whose map starts at the 0-based line of the text it was given): token_line returns map[0] (or "
+            "the default / ValueError without a map); add_line_and_source_path sets node.line to exactly that and never "
+            "raises; the first loop of _render_tokens turns every mapped token's [start, end) into [start+1, end+1) once "
+            "(1-based docutils lines), leaves unmapped tokens alone and gives inline children their parent's map; "
+            "nested_render_text hands to _render_tokens exactly the tokens parsed from `text` (+ final newline; minus a "
+            "leading front-matter token) with every mapped token starting `lineno` lines below where the parser saw it - "
+            "so node.line = parser line + lineno + 1 for text found at 0-based offset lineno - and restores the heading "
+            "offset.  FLOW: no other store to a `.map` attribute exists in the package (frame of the above).  NOT under "
+            "contract: the offsets callers pass as `lineno` (run_directive / MockState.nested_parse / parse_directive_text "
+            "body_offset / include), hence BOUNDED: generated documents whose generator knows the first line of "
             "every construct (paragraph, heading, list item, code block, raw HTML, table) nested up to depth 3 in block "
             "quotes, lists, backtick and colon directives with no / ':'-style / '---'-style option blocks and optional blank "
             "line before the body; warning lines of roles planted at known lines; included files (line relative to the "
             "file, source path = the file, host lines unaffected); substitution."
         ),
-        assumptions=["markdown-it-py token.map is the 0-based line range of the token in the text it was given"],
-        trusted_base=[],
-        technique="bounded run-time stand-in (generator with ground-truth line numbers) - no contract discharged yet",
+        assumptions=["markdown-it-py token.map is the 0-based line range of the token in the text it was given",
+                     "the part of _render_tokens after its first loop (tree building, dispatch) is outside the prefix contract; "
+                     "callers see it through an assumed frame `*` (may change anything)"],
+        trusted_base=["markdown-it-py parse / parseInline (contracts/lines.py: ParseResult)", "docutils node model (line, source)"],
+        technique="pyvc deductive proof of the line arithmetic (token_line, add_line_and_source_path, _render_tokens prefix, "
+                  "nested_render_text) + AST frame pass for Token.map + bounded run-time stand-in for the caller offsets",
     ),
     "C03": dict(
         level="other",
